@@ -508,11 +508,11 @@ class RTFEncodingService:
         Returns:
             RTF page break string
         """
-        from ..core import RTFConstants
+        from ..row import Utils
 
         page_setup = (
-            f"\\paperw{int(page_config.width * RTFConstants.TWIPS_PER_INCH)}"
-            f"\\paperh{int(page_config.height * RTFConstants.TWIPS_PER_INCH)}\n\n"
+            f"\\paperw{Utils._inch_to_twip(page_config.width)}"
+            f"\\paperh{Utils._inch_to_twip(page_config.height)}\n\n"
             f"{page_margin_encode_func()}\n"
         )
 
